@@ -18,7 +18,8 @@ _laid_all = []
 PROP = "C03"
 COQ_PROPS = "Props/C03.v"
 COQ_PROPS_EXTRA = ["Props/C03exact.v", "Props/C03more.v", "Props/WFbackbone.v"]
-THEOREMS = ["see Props/C03.v"]
+THEOREMS = ["C03_tiling, C03_printed_is_render (Props/C03.v); C03_exact / C03_exact_total and the class theorems (Props/C03exact.v): print = normalize(text) under the decidable laid_out'; C03_comments_kept / C03_fragments_kept (Props/C03more.v)",
+            "Props/WFbackbone.v: WF_print_derivation, WF_print_parse(_any_order), parse_WF, C03_general_reparse (every decided document: printed text accepted, same data, kinds included), C03_general_reparse_undotted, Built_WF (names in coverage.theorem_names)"]
 RULE = ("valid abstract documents with comments/whitespace markers in every decor slot, all table orderings, CRLF/LF "
         "mixes, BOM, missing final newline; non-trivial = document with >= 2 statements")
 ASSUMPTIONS = ["normalize() is the six-state scanner of DESIGN.md 3.5, independent of the parser"]
